@@ -46,10 +46,8 @@ func (f *Filter) Filter(subject any) {
 
 	case *structs.IndexedServiceTopology:
 		filtered := f.filterServiceTopology(v.ServiceTopology)
-		if filtered {
-			v.FilteredByACLs = true
-			v.ResultsFilteredByACLs = true
-		}
+		v.FilteredByACLs = filtered
+		v.ResultsFilteredByACLs = filtered
 
 	case *structs.DatacenterIndexedCheckServiceNodes:
 		v.ResultsFilteredByACLs = f.filterDatacenterCheckServiceNodes(&v.DatacenterNodes)
@@ -67,12 +65,11 @@ func (f *Filter) Filter(subject any) {
 		f.filterIntentionMatch(v)
 
 	case *structs.IndexedNodeDump:
-		if f.filterNodeDump(&v.Dump) {
-			v.ResultsFilteredByACLs = true
-		}
+		removed := f.filterNodeDump(&v.Dump)
 		if f.filterNodeDump(&v.ImportedDump) {
-			v.ResultsFilteredByACLs = true
+			removed = true
 		}
+		v.ResultsFilteredByACLs = removed
 
 	case *structs.IndexedServiceDump:
 		v.ResultsFilteredByACLs = f.filterServiceDump(&v.Dump)
@@ -134,9 +131,10 @@ func (f *Filter) Filter(subject any) {
 		v.ResultsFilteredByACLs = f.filterServiceList(&v.Services)
 
 	case *structs.IndexedExportedServiceList:
+		removed := false
 		for peer, peerServices := range v.Services {
 			if f.filterServiceList(&peerServices) {
-				v.ResultsFilteredByACLs = true
+				removed = true
 			}
 			if len(peerServices) == 0 {
 				delete(v.Services, peer)
@@ -144,20 +142,20 @@ func (f *Filter) Filter(subject any) {
 				v.Services[peer] = peerServices
 			}
 		}
+		v.ResultsFilteredByACLs = removed
 
 	case *structs.IndexedGatewayServices:
 		v.ResultsFilteredByACLs = f.filterGatewayServices(&v.Services)
 
 	case *structs.IndexedNodesWithGateways:
-		if f.filterCheckServiceNodes(&v.Nodes) {
-			v.ResultsFilteredByACLs = true
-		}
+		removed := f.filterCheckServiceNodes(&v.Nodes)
 		if f.filterGatewayServices(&v.Gateways) {
-			v.ResultsFilteredByACLs = true
+			removed = true
 		}
 		if f.filterCheckServiceNodes(&v.ImportedNodes) {
-			v.ResultsFilteredByACLs = true
+			removed = true
 		}
+		v.ResultsFilteredByACLs = removed
 
 	default:
 		panic(fmt.Errorf("Unhandled type passed to ACL filter: %T %#v", subject, subject))
